@@ -27,6 +27,21 @@
 #include <ascon/random.h>
 #include <ascon/utility.h>
 
+#include <errno.h>
+#include <sys/syscall.h>
+#include <unistd.h>
+
+/* --arg nosrc: the system random source fails for the whole process (getrandom -> ENOSYS).  The PRNG's behaviour with a dead
+ * source is deterministic, so its per-thread output is compared with the sequential run as well, and whatever the library
+ * does to cope with the failure is exercised by 8 threads at once. */
+static int fail_source = 0;
+ssize_t getrandom(void *buf, size_t n, unsigned flags)
+{
+    if (fail_source) { errno = ENOSYS; return -1; }
+    return syscall(SYS_getrandom, buf, n, flags);
+}
+int getentropy(void *buf, size_t n) { return getrandom(buf, n, 0) == (ssize_t)n ? 0 : -1; }
+
 #define MAXT 16
 #define NOPS 40
 #define NKINDS 24
@@ -114,9 +129,14 @@ static void do_op(const op_t *o, uint8_t out[OUTSZ], int tid)
         ascon_masked_key_128_extract(&sh_mk128, buf); ascon_masked_key_160_extract(&sh_mk160, buf + 16); clen = 36; break; }
     default: { /* the global PRNG and a per-thread PRNG object: output is random, only the call is exercised */
         ascon_random_state_t rs; uint8_t rnd[48];
-        ascon_random(rnd, 1 + (mlen % 48)); ascon_random_init(&rs); ascon_random_fetch(&rs, rnd, 32); ascon_random_feed(&rs, m, mlen); ascon_random_free(&rs);
+        memset(rnd, 0, sizeof(rnd));
+        ascon_random(rnd, 1 + (mlen % 48)); ascon_random_init(&rs); ascon_random_fetch(&rs, rnd, 32); ascon_random_feed(&rs, m, mlen);
+        if (fail_source) { ascon_random_reseed(&rs); ascon_random_fetch(&rs, rnd + 32, 16); }
+        ascon_random_free(&rs);
         { char hx[33]; ascon_bytes_to_hex(hx, sizeof(hx), sh_key, 16, tid & 1); memcpy(buf, hx, 32); }
-        clen = 32; break; }
+        clen = 32;
+        if (fail_source) { memcpy(buf + 32, rnd, 48); clen = 80; }   /* dead source: the PRNG is deterministic, so its output is compared too */
+        break; }
     }
     /* digest of the output */
     for (size_t i = 0; i < clen; ++i) out[i % OUTSZ] = (uint8_t)(out[i % OUTSZ] * 31 + buf[i] + (uint8_t)i);
@@ -159,7 +179,8 @@ int main(int argc, char **argv)
         vf_finish();
         return 0;
     }
-    if (a.arg && !strncmp(a.arg, "cold:", 5)) { coldkind = atoi(a.arg + 5) % NKINDS; nthreads = 8; }
+    if (a.arg && !strcmp(a.arg, "nosrc")) { fail_source = 1; nthreads = 8; }
+    else if (a.arg && !strncmp(a.arg, "cold:", 5)) { coldkind = atoi(a.arg + 5) % NKINDS; nthreads = 8; }
     else if (a.arg && atoi(a.arg) >= 2 && atoi(a.arg) <= MAXT) nthreads = atoi(a.arg);
     rounds = a.cases > 0 ? a.cases : 200;
     rng_seed(&r, a.seed ^ 0x16, a.shard);
@@ -178,6 +199,7 @@ int main(int argc, char **argv)
                 op_t *o = &plan[t][i];
                 o->kind = (uint8_t)rng_below(&r, NKINDS); o->mlen = (uint16_t)pick_len(&r, 8, 180); o->adlen = (uint16_t)pick_len(&r, 8, 60); o->off = (uint8_t)rng_below(&r, 20);
                 if (coldkind >= 0 && round == 0 && i < 3) o->kind = (uint8_t)coldkind;
+                if (fail_source && (i & 1)) o->kind = NKINDS - 1;       /* half of the operations use the PRNG */
                 if (((o->kind >= 3 && o->kind <= 5) || (o->kind >= 17 && o->kind <= 19)) && o->mlen > 64) o->mlen = 64;
             }
         yield_seed = rng_u64(&r);
@@ -188,7 +210,7 @@ int main(int argc, char **argv)
         for (int t = 0; t < T; ++t)
             for (int i = 0; i < NOPS; ++i) {
                 do_op(&plan[t][i], expect[t][i], t);       /* sequential result, after the concurrent phase */
-                if (memcmp(got[t][i], expect[t][i], OUTSZ) != 0 && plan[t][i].kind != NKINDS - 1) {
+                if (memcmp(got[t][i], expect[t][i], OUTSZ) != 0 && (plan[t][i].kind != NKINDS - 1 || fail_source)) {
                     char key[64];
                     snprintf(key, sizeof(key), "mt:result-differs-from-sequential:kind%d", plan[t][i].kind);
                     vf_violation("C16", key, "\"threads\":%d,\"thread\":%d,\"op\":%d,\"mlen\":%u,\"adlen\":%u,\"cold_kind\":%d", T, t, i, plan[t][i].mlen, plan[t][i].adlen, coldkind);
@@ -198,6 +220,7 @@ int main(int argc, char **argv)
         ascon_masked_key_128_free(&sh_mk128); ascon_masked_key_160_free(&sh_mk160);
         vf_count("cases", 1); vf_count("thread_operations", (long)T * NOPS);
         vf_distinct("mt|threads%d|round%ld", T, round % 50);
+        if (fail_source) vf_distinct("mt|dead-source|threads%d", T);
         if (coldkind >= 0 && round == 0) { vf_distinct("mt|cold-start|kind%d", coldkind); vf_count("cold_start_processes", 1); }
         vf_case_end();
     }
